@@ -210,7 +210,9 @@ Fin(st, n) ==
     [] k \in OwnSlotKinds -> IF ~nd.f THEN 1 ELSE Fin(st, nd.d)
     [] k \in CellKinds \/ k = "mall" ->
          IF RHeld(nd) THEN 2 ELSE IF ~nd.f THEN 1 ELSE Fin(st, nd.d)
-    [] k = "suN" -> 0
+    [] k = "suN" ->              \* notifier of skip_until: done once the gate is open or the main observer is gone
+         LET slot == st.nodes[nd.d] IN
+         IF ~st.nodes[nd.c].f THEN 1 ELSE IF RHeld(slot) THEN 2 ELSE IF slot.f THEN 0 ELSE 1
     [] k = "subjobs" ->          \* Subject::is_finished = observers.rc_deref().is_none()
          LET on == st.nodes[st.subj[nd.c].o] IN IF RHeld(on) THEN 2 ELSE IF on.f THEN 0 ELSE 1
     [] k = "chan" -> IF nd.g THEN 1 ELSE 0
